@@ -491,6 +491,11 @@ def main(argv=None):
     ctx = Ctx(a.pid, a.tier, seed, getattr(mod, "LEVEL", "model_checking"))
     try:
         if a.replay:
+            if not hasattr(mod, "replay"):
+                print(f"{a.pid}: no single-case replay; the replay file documents the case: {a.replay}")
+                print(Path(a.replay).read_text()[:4000])
+                shutil.rmtree(ctx.tmp, ignore_errors=True)
+                return 1
             rc = mod.replay(ctx, a.replay)
             shutil.rmtree(ctx.tmp, ignore_errors=True)
             return rc
